@@ -38,6 +38,14 @@ def main():
     suite = "--suite" in sys.argv
     nocheck = "--no-check" in sys.argv
     src = "/tmp/mut/%s.out" % pid if x in ("A", "B") else ("/tmp/mut/%s.r2.out" % pid if x in ("C", "D") else ("/tmp/mut/%s.r3.out" % pid if x in ("E", "F") else ("/tmp/mut/%s.r4.out" % pid if x in ("G", "H") else "/tmp/mut/%s.r5.out" % pid)))
+    inst = os.path.join(V, "seeded", "%s-%s" % (pid, x))
+    if not os.path.exists("%s/%s.json" % (src, x)) and os.path.exists(os.path.join(inst, "meta.json")):
+        # the sub-agent's delivery under /tmp is gone (new session): re-run from the installed copy
+        src = "/tmp/seedwt/in-%s-%s" % (pid, x)
+        os.makedirs(src, exist_ok=True)
+        shutil.copy(os.path.join(inst, "patch.diff"), "%s/%s.diff" % (src, x))
+        shutil.copy(os.path.join(inst, "demo_test.go"), "%s/%s_demo_test.go" % (src, x))
+        json.dump(json.load(open(os.path.join(inst, "meta.json")))["what_i_ran"]["agent_meta"], open("%s/%s.json" % (src, x), "w"))
     meta = json.load(open("%s/%s.json" % (src, x)))
     wt = "/tmp/seedwt/%s-%s" % (pid, x)
     os.makedirs("/tmp/seedwt", exist_ok=True)
